@@ -47,9 +47,9 @@ LEANCHECKER = ["BacVerif.Props.C17"]
 LEVEL = "proof"
 RULE = ("per commandable class: all presentValue command sequences up to length 4 (quick) / 5 (thorough) over "
         "4 priorities (None, 16 and two seed-chosen ones) x 3 values (2 for BinaryPV) x {write, relinquish}, "
-        "directly; up to length 3 / 4 as WriteProperty/ReadProperty APDUs (quick tier: full depth for one class of "
-        "each (datatype, mix-in) group — APDU depth for every second group, alternating with the seed — one "
-        "command less for the sibling classes; thorough: full depth for all 20); random length-100 histories over "
+        "directly; up to length 3 / 4 as WriteProperty/ReadProperty APDUs (quick tier: per (datatype, mix-in) group "
+        "one class gets full depth either directly or as APDUs, alternating between groups and with the seed, "
+        "everything else one command less; thorough: full depth both ways for all 20); random length-100 histories over "
         "None + 1..16 with refused commands mixed in, both ways; min on/off times 0..10 s with clock movements. "
         "distinct = distinct (stream kind, class family, tuple of model branch classes of the last <=3 steps) "
         "signatures; trivial = the empty sequence")
@@ -947,6 +947,38 @@ def gen_random(rng, ci, n, timed=False, avoid6=False, wire=False):
     return evs
 
 
+def directed_timed(on, off):
+    """a state change forced by priority 3 in the middle of a hold (the timer must be
+    re-armed for the new state), observations a quarter second around every deadline,
+    release of the override, a second round the other way"""
+    q = 250000
+    evs, t = [], 0
+
+    def adv(d):
+        nonlocal t
+        t += d
+        evs.append(("a", t))
+    evs.append(("w", "pv", 1, None, 8))               # active, held `on`
+    adv(q)
+    evs.append(("w", "pv", 0, None, 3))               # override: inactive, held `off` from here
+    for _ in range(2):
+        adv(max(q, min(on, off) * 1000000 - 2 * q))
+        adv(q); adv(q); adv(q)
+        adv(max(q, abs(on - off) * 1000000 - 2 * q))
+        adv(q); adv(q); adv(q)
+    evs.append(("w", "pv", None, None, 3))            # override gone: priority 8 (active) wins again
+    adv(q)
+    evs.append(("w", "pv", 0, None, 2))
+    adv(q)
+    evs.append(("w", "pv", 1, None, 1))               # two changes inside each other's holds
+    adv(max(on, off) * 1000000 + q)
+    evs.append(("w", "pv", None, None, 1))
+    evs.append(("w", "pv", None, None, 2))
+    adv((on + off) * 1000000 + q)
+    adv(11000000)
+    return evs
+
+
 def run_timed(ctx, stream, kind, cname, cfg, events):
     """like lockstep, but for direct targets an advance ("a", t) is replaced by single
     scheduler steps at the implementation's own deadlines followed by ("t", t)"""
@@ -1050,6 +1082,8 @@ def shard(ctx, spec):
         rng = ctx.sub_rng("c17-mo/%s/%s/%d/%d/%d" % (cname, kind, on, off, idx))
         cfg = {"def": 0, "pv": 0, "on": on, "off": off}
         run_timed(ctx, "minonoff-" + kind, kind, cname, cfg, gen_random(rng, ci, n, timed=True, avoid6=True, wire=(kind != "direct")))
+        if kind == "direct":
+            run_timed(ctx, "minonoff-directed", kind, cname, cfg, directed_timed(on, off))
     elif what == "corpus":
         run_corpus(ctx)
     else:
@@ -1128,8 +1162,14 @@ def run(ctx):
         grp = (ci["meta"]["datatype"], ci["meta"]["minOnOff"])
         full = not ctx.quick or grp not in seen_groups
         ld, lw = (L, LW) if full else (L - 1, LW - 1)
-        if ctx.quick and full and (len(seen_groups) + ctx.seed) % 2:
-            lw = LW - 1          # ... and the APDU depth alternates between the groups with the seed
+        if ctx.quick and full:
+            # ... and full depth alternates between the groups with the seed: even
+            # groups get the longest direct sequences on even seeds and the longest
+            # APDU sequences on odd seeds, odd groups the other way round
+            if (len(seen_groups) + ctx.seed) % 2:
+                lw = LW - 1
+            else:
+                ld = L - 1
         seen_groups.add(grp)
         wire_len[cname] = [ld, lw]
         for f in range(len(cmds)):
